@@ -138,6 +138,20 @@ func RunDec(opts []DecOpt, src []byte) string {
 	return ShowCalls(calls) + " # " + ErrStr(err)
 }
 
+// SpecCase: the implementation's verdict in the form the specification parser reports it.
+func SpecCase(src []byte) string { return "spec | " + HexBytes(src) }
+
+func RunSpecImpl(src []byte) string {
+	calls, err, p := Decode(nil, src)
+	if p != "" {
+		return "# " + p
+	}
+	if err != nil {
+		return "# rejected"
+	}
+	return ShowCalls(calls) + " # ok"
+}
+
 func DvbCase(src []byte) string { return "dvb | " + HexBytes(src) }
 
 func RunDvb(src []byte) (obs string) {
